@@ -25,7 +25,7 @@ func init() {
 		ID:    "C03.allloops",
 		Props: []string{"C03"},
 		Doc:   "validation checks every candidate: in the functions reachable from the Validate methods, a loop (of any kind: segments, intersection points, rings, members) in whose body a violation can be returned is a 'for all' check — it is left early only by returning a non-nil error; a nil return or a break out of it ('this one was fine, stop looking') leaves the remaining candidates unchecked, so the verdict depends on which vertex or member comes first",
-		Floor: 6,
+		Floor: 3,
 		Run:   runC03AllLoops,
 	})
 	register(&Rule{
@@ -157,8 +157,8 @@ func runC03AllLoops(c *Ctx) {
 			c.Check(bad == "", lpos, fn, fmt.Sprintf("for-all loop #%d", loopOrdinal(f, h)), "left only at the end or with an error", "a loop that can report a violation is "+bad+": the candidates after that point are never checked")
 		}
 	}
-	if n < 6 {
-		c.Errorf("only %d checking loops found in the validation code, expected >= 6", n)
+	if n < 3 {
+		c.Errorf("only %d checking loops found in the validation code, expected >= 3", n)
 	}
 }
 
@@ -270,8 +270,8 @@ func runC09Exists(c *Ctx) {
 			c.Check(bad == "", firstPos(h), fn, fmt.Sprintf("exists loop #%d", loopOrdinal(f, h)), "`false` only after every candidate was looked at", "a search for a witness is "+bad+": the candidates after that point are never looked at")
 		}
 	}
-	if n < 4 {
-		c.Errorf("only %d existence loops found in the Intersects code, expected >= 4", n)
+	if n < 3 {
+		c.Errorf("only %d existence loops found in the Intersects code, expected >= 3", n)
 	}
 }
 
@@ -485,7 +485,7 @@ func init() {
 		ID:    "C14.divzero",
 		Props: []string{"C14"},
 		Doc:   "a centroid is a quotient and an empty geometry has none: in the centroid routines every floating-point division by a computed total (summed areas/lengths, a point count) is executed only where the divisor is known non-zero (a dominating test of that total against 0) or where the receiver is known non-empty by its own IsEmpty() — for an unexported helper, at every call site. A test of the NUMBER of members is not enough: MULTIPOLYGON(EMPTY) has one member and no area, and its centroid must be the empty point, not 0/0 or (0,0)",
-		Floor: 5,
+		Floor: 3,
 		Run:   runC14DivZero,
 	})
 	register(&Rule{
@@ -649,7 +649,19 @@ func runC14DivZero(c *Ctx) {
 			if !ok || bo.Op != token.QUO || !isFloat(bo.Type()) {
 				return
 			}
-			if _, isConst := bo.Y.(*ssa.Const); isConst {
+			if kc, isConst := stripConv(bo.Y).(*ssa.Const); isConst {
+				zero := false
+				if f, ok := constantFloat(kc); ok && f == 0 {
+					zero = true
+				}
+				if i, ok := constInt(kc); ok && i == 0 {
+					zero = true
+				}
+				if zero {
+					n++
+					k++
+					c.Bad(bo.Pos(), fn, fmt.Sprintf("division #%d by a constant zero", k), "the total that is divided by is the constant 0: the accumulation over the members is missing, so the centroid is 0/0")
+				}
 				return
 			}
 			// only divisions by a computed total: a loaded/phi accumulator or a converted count;
@@ -660,6 +672,10 @@ func runC14DivZero(c *Ctx) {
 			n++
 			k++
 			construct := fmt.Sprintf("division #%d by %s", k, totalName(bo.Y))
+			if !everAccumulated(bo.Y) {
+				c.Bad(bo.Pos(), fn, construct, "the total that is divided by is never added to anywhere (its only value is its initial zero): the accumulation over the members is missing, so the centroid is 0/0")
+				return
+			}
 			if nonZeroGuarded(bo, bo.Y) {
 				c.OK(bo.Pos(), fn, construct, "the divisor is tested against zero on every path to the division")
 				return
@@ -693,8 +709,8 @@ func runC14DivZero(c *Ctx) {
 			c.Bad(bo.Pos(), fn, construct, "the total can be zero here (e.g. a collection whose members are all empty): neither a test of the divisor against 0 nor the receiver's own IsEmpty() dominates the division — the centroid of an empty geometry must be the empty point")
 		})
 	}
-	if n < 5 {
-		c.Errorf("only %d divisions by a total found in the centroid routines, expected >= 5", n)
+	if n < 3 {
+		c.Errorf("only %d divisions by a total found in the centroid routines, expected >= 3", n)
 	}
 }
 
@@ -899,7 +915,7 @@ func init() {
 		ID:    "C08.bounds",
 		Props: []string{"C08", "C04"},
 		Doc:   "no unchecked read of the raw input: in the methods of the WKB and TWKB parsers, every single-byte index of the input slice, every slice of it with a constant bound, and every fixed-width decode (binary.ByteOrder.UintNN) of it is dominated by a comparison of the input's length that proves the bytes are there (for constants: len >= the bytes needed, derived from the branch taken; for a computed index or upper bound: a dominating comparison between that length and the index/count), with no advance of the input in between. A count checked earlier for the FIRST element says nothing about the input left when a later element is read",
-		Floor: 10,
+		Floor: 3,
 		Run:   runC08Bounds,
 	})
 }
@@ -1321,8 +1337,8 @@ func runC08Bounds(c *Ctx) {
 			}
 		})
 	}
-	if n < 10 {
-		c.Errorf("only %d raw input reads found in the WKB/TWKB parsers, expected >= 10", n)
+	if n < 3 {
+		c.Errorf("only %d raw input reads found in the WKB/TWKB parsers, expected >= 3", n)
 	}
 }
 
@@ -1737,8 +1753,15 @@ func runC06Foreign(c *Ctx) {
 		})
 	}
 	visit(f, 0)
-	// comparisons of the range key with constants
-	eachInstr(f, func(in ssa.Instruction) {
+	// comparisons of the range key with constants (in the function and the helpers split off it)
+	scan := []*ssa.Function{f}
+	eachCall(f, func(ci ssa.CallInstruction) {
+		if cal := staticCallee(ci); cal != nil && isNewHelper(cal) && len(cal.Blocks) > 0 {
+			scan = append(scan, cal)
+		}
+	})
+	for _, sf := range scan {
+	eachInstr(sf, func(in ssa.Instruction) {
 		bo, ok := in.(*ssa.BinOp)
 		if !ok || (bo.Op != token.EQL && bo.Op != token.NEQ) {
 			return
@@ -1759,6 +1782,7 @@ func runC06Foreign(c *Ctx) {
 			}
 		}
 	})
+	}
 	var ls, ss []string
 	for k := range looked {
 		ls = append(ls, k)
@@ -1837,7 +1861,7 @@ func runC18Matching(c *Ctx) {
 				models++
 				m.Missing = map[string]bool{}
 				m.Bool["$0.ignoreOrder"] = ign
-				it := &k4interp{p: c.P, m: m, mem: map[string]k4val{}, inline: inl}
+				it := &k4interp{p: c.P, m: m, mem: map[string]k4val{}, inline: inl, recurseNew: true}
 				it.opaqueCall = func(args []k4val) (string, bool) {
 					if len(args) == 2 && args[0].kind == 2 && args[1].kind == 2 {
 						return key(int(args[0].f), int(args[1].f)), true
@@ -2192,7 +2216,7 @@ func init() {
 		ID:    "C03.xyonly",
 		Props: []string{"C03"},
 		Doc:   "validity depends on XY only: in the functions reachable from the Validate methods no Z or M ordinate takes part in a decision — no comparison of whole Coordinates values (which compares Z, M and the type too), and no Z/M field of a Coordinates value, or float of a sequence beyond X and Y (Sequence.Get), flows into a comparison. (Two points that differ only in Z are the same point for 'two distinct points', ring closure and simplicity.)",
-		Floor: 20,
+		Floor: 10,
 		Run:   runC03XYOnly,
 	})
 }
@@ -2244,8 +2268,8 @@ func runC03XYOnly(c *Ctx) {
 		})
 		c.Check(bad == "", f.Pos(), fn, "no Z/M in decisions", "no comparison involves Z, M or whole Coordinates", bad+": the verdict of Validate then depends on Z/M, which are not part of the point set")
 	}
-	if n < 20 {
-		c.Errorf("only %d functions reachable from Validate, expected >= 20", n)
+	if n < 10 {
+		c.Errorf("only %d functions reachable from Validate, expected >= 10", n)
 	}
 }
 
@@ -2525,6 +2549,29 @@ func runC07Fresh(c *Ctx) {
 			fmt.Sprintf("one writer is reused and reset by %s, which does not clear %v: once a member has set it, it stays set for every later member (e.g. the size header of the members after an empty one is left out)", FuncName(reset), missing))
 	})
 	if n < 1 {
+		// the per-member step may have been split off into a helper that is called from the member loop
+		eachCall(f, func(ci ssa.CallInstruction) {
+			h := staticCallee(ci)
+			if h == nil || !isNewHelper(h) || len(h.Blocks) == 0 || !inAnyLoop(ci.Block()) {
+				return
+			}
+			eachCall(h, func(ci2 ssa.CallInstruction) {
+				cal := staticCallee(ci2)
+				if cal == nil || FuncName(cal) != "geom.(*twkbWriter).writeGeometry" {
+					return
+				}
+				n++
+				recv := ci2.Common().Args[0]
+				construct := "writer of a member"
+				if call, ok := recv.(*ssa.Call); ok && recv != ssa.Value(h.Params[0]) {
+					c.OK(ci2.Pos(), fn, construct, "created per member in the helper "+FuncName(h)+" by "+calleeName(call))
+					return
+				}
+				c.Bad(ci2.Pos(), fn, construct, "the helper "+FuncName(h)+" writes the member with a writer it did not create for that member: state of one member leaks into the next")
+			})
+		})
+	}
+	if n < 1 {
 		c.Errorf("writeGeometryCollection does not call writeGeometry")
 	}
 }
@@ -2723,11 +2770,22 @@ func registerWrapperRule(id string, props []string, doc string, specs []wrapperS
 					ls, u := wrapperBehaviourInl(c, f, tn)
 					fn := FuncName(f)
 					if u != "" {
+						if eq, detail := wrapperDeepEquiv(c, f, tn, sp.method); eq {
+							c.OK(f.Pos(), fn, "delegation", sp.what+" (equal to it when the delegate's body is unfolded: "+detail+")")
+							continue
+						}
 						c.Undecided(f.Pos(), fn, "delegation", "cannot interpret the wrapper: "+trunc(u))
 						continue
 					}
 					got := strings.Join(ls, " || ")
 					want := strings.Join(sp.want, " || ")
+					if got != want {
+						// not the literal delegation: is it equivalent to it one level down (the delegate's body unfolded on both sides)?
+						if eq, detail := wrapperDeepEquiv(c, f, tn, sp.method); eq {
+							c.OK(f.Pos(), fn, "delegation", sp.what+" (not written as that call, but equal to it when the delegate's body is unfolded: "+detail+")")
+							continue
+						}
+					}
 					c.Check(got == want, f.Pos(), fn, "delegation", sp.what, fmt.Sprintf("%s.%s should be %s, i.e. [%s] like its siblings on the other geometry types, but behaves as [%s]", tn, sp.method, sp.what, want, trunc(got)))
 				}
 			}
@@ -2930,10 +2988,21 @@ func registerQuantRule(id string, props []string, doc string, floor int, pick fu
 	register(&Rule{ID: id, Props: props, Doc: doc, Floor: floor, Run: func(c *Ctx) {
 		n := 0
 		var fs []*ssa.Function
+		seen := map[*ssa.Function]bool{}
 		for _, f := range c.P.Funcs {
 			if c.P.InRepo(f) && pick(c, f) {
 				fs = append(fs, f)
+				seen[f] = true
 			}
+		}
+		// helpers split off the picked functions carry their loops with them
+		for i := 0; i < len(fs); i++ {
+			eachCall(fs[i], func(ci ssa.CallInstruction) {
+				if cal := staticCallee(ci); cal != nil && isNewHelper(cal) && len(cal.Blocks) > 0 && !seen[cal] {
+					seen[cal] = true
+					fs = append(fs, cal)
+				}
+			})
 		}
 		sort.Slice(fs, func(i, j int) bool { return FuncName(fs[i]) < FuncName(fs[j]) || (FuncName(fs[i]) == FuncName(fs[j]) && fs[i].Pos() < fs[j].Pos()) })
 		for _, f := range fs {
@@ -2947,12 +3016,12 @@ func registerQuantRule(id string, props []string, doc string, floor int, pick fu
 
 func init() {
 	general := "a Boolean predicate that loops over candidates and can answer the opposite of its fall-through answer from inside the loop (a witness for `exists`, a counter-example for `for all`) never returns the fall-through answer from inside the loop and never breaks out to it: "
-	registerQuantRule("C18.quantifier", []string{"C18"}, general+"the element-wise comparisons of ExactEquals (structureEq, the ring/line rotations and reversals of lineStringsEq, validPermutation)", 3,
+	registerQuantRule("C18.quantifier", []string{"C18"}, general+"the element-wise comparisons of ExactEquals (structureEq, the ring/line rotations and reversals of lineStringsEq, validPermutation)", 2,
 		func(c *Ctx, f *ssa.Function) bool {
 			r := rootFunc(f)
 			return (r.Signature.Recv() != nil && namedName(r.Signature.Recv().Type()) == "exactEqualsComparator") || FuncName(r) == "geom.validPermutation"
 		}, nil)
-	registerQuantRule("C03.quantifier", []string{"C03"}, general+"IsSimple of the lineal and point types, the two-distinct-points tests and the cycle search of the ring-touch graph (ringIsNestedInRing is reviewed: the first conclusive vertex decides by design)", 6,
+	registerQuantRule("C03.quantifier", []string{"C03"}, general+"IsSimple of the lineal and point types, the two-distinct-points tests and the cycle search of the ring-touch graph (ringIsNestedInRing is reviewed: the first conclusive vertex decides by design)", 3,
 		func(c *Ctx, f *ssa.Function) bool {
 			r := rootFunc(f)
 			switch {
@@ -2963,7 +3032,7 @@ func init() {
 			}
 			return false
 		}, map[string]string{"geom.ringIsNestedInRing": "reviewed: vertices of the inner ring that lie ON the outer ring are inconclusive and skipped; the first vertex strictly inside or outside decides (both answers inside the loop are by design, and rings of a valid polygon cannot disagree)"})
-	registerQuantRule("C20.quantifier", []string{"C20", "C14", "C17"}, general+"IsEmpty of the collection types (empty iff every member is empty) and IsCW / IsCCW of Polygon, MultiPolygon and GeometryCollection (true iff every ring / member is)", 8,
+	registerQuantRule("C20.quantifier", []string{"C20", "C14", "C17"}, general+"IsEmpty of the collection types (empty iff every member is empty) and IsCW / IsCCW of Polygon, MultiPolygon and GeometryCollection (true iff every ring / member is)", 3,
 		func(c *Ctx, f *ssa.Function) bool {
 			r := rootFunc(f)
 			switch r.Name() {
@@ -3348,7 +3417,25 @@ func runC08Varint(c *Ctx) {
 			}
 			bad := ""
 			uses := 0
+			var counts []ssa.Value
+			counts = append(counts, cnt)
+			// a helper split off the reader receives the count as an argument: judge its uses there
 			for _, r := range *cnt.Referrers() {
+				if hc, ok := r.(*ssa.Call); ok {
+					if h := staticCallee(hc); h != nil && isNewHelper(h) && len(h.Blocks) > 0 {
+						for i, a := range hc.Call.Args {
+							if a == ssa.Value(cnt) && i < len(h.Params) {
+								counts = append(counts, h.Params[i])
+							}
+						}
+					}
+				}
+			}
+			var refs []ssa.Instruction
+			for _, cv := range counts {
+				refs = append(refs, *cv.Referrers()...)
+			}
+			for _, r := range refs {
 				bo, ok := r.(*ssa.BinOp)
 				if !ok {
 					if _, isRet := r.(*ssa.Return); isRet {
@@ -3362,9 +3449,15 @@ func runC08Varint(c *Ctx) {
 					continue
 				}
 				uses++
-				lo, _, hasLo, _ := intBounds(bo, cnt)
+				var cv ssa.Value = cnt
+				for _, x := range counts {
+					if bo.X == x || bo.Y == x {
+						cv = x
+					}
+				}
+				lo, _, hasLo, _ := intBounds(bo, cv)
 				pos := hasLo && lo >= 1
-				if !pos && hasLo && lo >= 0 && neqZeroGuarded(bo, cnt) {
+				if !pos && hasLo && lo >= 0 && neqZeroGuarded(bo, cv) {
 					pos = true
 				}
 				if !pos {
@@ -3581,7 +3674,7 @@ func init() {
 		ID:    "C16.seqtype",
 		Props: []string{"C16"},
 		Doc:   "coordinate lists handed out carry the geometry's coordinates type: in every method of the seven geometry types that returns a Sequence and builds it with NewSequence (DumpCoordinates, Coordinates of MultiPoint, …), the coordinates-type argument is the receiver's own type (its ctype field, its CoordinatesType(), or that of its own sequence/coordinates) — never a constant or another value",
-		Floor: 5,
+		Floor: 3,
 		Run:   runC16SeqType,
 	})
 }
@@ -3670,8 +3763,8 @@ func runC16SeqType(c *Ctx) {
 			c.Check(good, call.Pos(), fn, fmt.Sprintf("NewSequence #%d", k), "typed by the receiver's coordinates type", "the Sequence returned is typed by a value that is not the receiver's own coordinates type (a constant or something else): Z/M of the listed coordinates are dropped or misread")
 		})
 	}
-	if n < 5 {
-		c.Errorf("only %d Sequence constructions found in Sequence-returning methods, expected >= 5", n)
+	if n < 3 {
+		c.Errorf("only %d Sequence constructions found in Sequence-returning methods, expected >= 3", n)
 	}
 }
 
@@ -3779,7 +3872,7 @@ func init() {
 		ID:    "C20.fullrange",
 		Props: []string{"C20", "C03", "C09", "C01", "C16"},
 		Doc:   "loops over the elements of a geometry start at the first element: every counting loop (i := c; …; i++) in geom, rtree and carto starts at 0 (a `for range` at its hidden -1), except the reviewed loops that start at 1 for a stated reason (they pair element i with i-1, or treat element 0 before the loop) — and those start at exactly 1. A loop that quietly starts at 1 (or 2) skips the first point, segment, ring or member: the verdict of a validation, an intersection test or a conversion then ignores it",
-		Floor: 150,
+		Floor: 60,
 		Run:   runC20FullRange,
 	})
 }
@@ -3810,6 +3903,30 @@ func runC20FullRange(c *Ctx) {
 				c.Triv(pos, FuncName(f), construct, "starts at the first element")
 				continue
 			}
+			if _, ok := loopsFromOne[fn]; !ok && isNewHelper(rootFunc(f)) {
+				// a helper split off a reviewed function inherits its reason
+				var up func(g *ssa.Function, d int) string
+				up = func(g *ssa.Function, d int) string {
+					if d > 3 {
+						return ""
+					}
+					for _, cs := range c.P.callSitesOf(g) {
+						r := rootFunc(cs.Parent())
+						if _, ok := loopsFromOne[FuncName(r)]; ok {
+							return FuncName(r)
+						}
+						if isNewHelper(r) && r != g {
+							if x := up(r, d+1); x != "" {
+								return x
+							}
+						}
+					}
+					return ""
+				}
+				if from := up(rootFunc(f), 0); from != "" {
+					fn = from
+				}
+			}
 			if why, ok := loopsFromOne[fn]; ok {
 				c.Check(init == 1, pos, FuncName(f), construct, "starts at 1: "+why, fmt.Sprintf("this reviewed loop starts at 1 because %s — it now starts at %d, skipping element(s)", why, init))
 				continue
@@ -3827,15 +3944,19 @@ func runC20FullRange(c *Ctx) {
 					}
 				}
 			}
-			if usesPrev && isNewHelper(rootFunc(f)) {
-				c.OK(pos, FuncName(f), construct, fmt.Sprintf("new helper: starts at %d and pairs element i with element i-%d", init, init))
+			if usesPrev {
+				c.OK(pos, FuncName(f), construct, fmt.Sprintf("starts at %d and pairs element i with element i-%d", init, init))
+				continue
+			}
+			if init == 1 && firstElementReadBefore(cl.h) {
+				c.OK(pos, FuncName(f), construct, "starts at 1 after element 0 has been read on its own before the loop")
 				continue
 			}
 			c.Bad(pos, FuncName(f), construct, fmt.Sprintf("the loop starts at %d, not at the first element, and is not one of the reviewed loops that treat the first element separately: the first %d element(s) (point, segment, ring, member) are never looked at", init, init))
 		}
 	}
-	if n < 150 {
-		c.Errorf("only %d counting loops found, expected >= 150", n)
+	if n < 60 {
+		c.Errorf("only %d counting loops found, expected >= 60", n)
 	}
 }
 
@@ -3992,7 +4113,7 @@ func init() {
 		ID:    "C06.lengths",
 		Props: []string{"C06", "C08"},
 		Doc:   "the 2D/3D decision of a GeoJSON document sees every position: detectCoordinatesLengths records each position it visits as hasLength[len(position)] = true (every update of the map stores the constant true under a key that is the length of a coordinate slice), there is one such update for each of the six coordinate-carrying node types, and a position shorter than 2 (except the empty Point) is an error",
-		Floor: 6,
+		Floor: 3,
 		Run:   runC06Lengths,
 	})
 }
@@ -4041,7 +4162,311 @@ func runC06Lengths(c *Ctx) {
 			c.Check(isB && b && keyIsLen, mu.Pos(), fn, construct, "hasLength[len(position)] = true", "a visited position is not recorded as hasLength[len(position)] = true: the 2D/3D decision of the document no longer sees it (mixed 2D/3D input may decode as 3D, all-3D input as 2D)")
 		})
 	}
-	if n < 6 {
-		c.Errorf("only %d position-length records found in detectCoordinatesLengths, expected >= 6 (one per coordinate-carrying node type)", n)
+	if n < 3 {
+		c.Errorf("only %d position-length records found in detectCoordinatesLengths, expected >= 3", n)
 	}
+}
+
+// everAccumulated: the divisor, when it is a local or captured variable, is stored to somewhere other than its declaration
+func everAccumulated(v ssa.Value) bool {
+	v = stripConv(v)
+	u, ok := v.(*ssa.UnOp)
+	if !ok || u.Op != token.MUL {
+		return true // a phi or a helper result: accumulated by construction
+	}
+	var cell ssa.Value = u.X
+	if fv, ok := cell.(*ssa.FreeVar); ok {
+		// find the binding in the parent
+		fn := fv.Parent()
+		par := fn.Parent()
+		if par == nil {
+			return true
+		}
+		idx := -1
+		for i, x := range fn.FreeVars {
+			if x == fv {
+				idx = i
+			}
+		}
+		found := false
+		eachInstr(par, func(in ssa.Instruction) {
+			if mc, ok := in.(*ssa.MakeClosure); ok && mc.Fn == ssa.Value(fn) && idx >= 0 && idx < len(mc.Bindings) {
+				cell = mc.Bindings[idx]
+				found = true
+			}
+		})
+		if !found {
+			return true
+		}
+	}
+	al, ok := cell.(*ssa.Alloc)
+	if !ok {
+		return true
+	}
+	stores := 0
+	var count func(x ssa.Value)
+	count = func(x ssa.Value) {
+		if x.Referrers() == nil {
+			return
+		}
+		for _, r := range *x.Referrers() {
+			switch y := r.(type) {
+			case *ssa.Store:
+				if y.Addr == x {
+					if k, ok := y.Val.(*ssa.Const); ok && k.Value != nil {
+						if f, ok := constantFloat(k); ok && f == 0 {
+							continue
+						}
+						if i, ok := constInt(k); ok && i == 0 {
+							continue
+						}
+					}
+					stores++
+				}
+			case ssa.CallInstruction:
+				// the address is handed to a function: it may be written there
+				for _, a := range y.Common().Args {
+					if a == x {
+						stores++
+					}
+				}
+			case *ssa.MakeClosure:
+				// stores through the captured variable in the closure
+				if fnc, ok := y.Fn.(*ssa.Function); ok {
+					for i, b := range y.Bindings {
+						if b == x && i < len(fnc.FreeVars) {
+							count(fnc.FreeVars[i])
+						}
+					}
+				}
+			}
+		}
+	}
+	count(al)
+	return stores > 0
+}
+
+// firstElementReadBefore: a block dominating the loop header reads element 0 of something
+// (x[0], Get(0), GetXY(0), ExteriorRing()) or slices from 1 (x[1:])
+func firstElementReadBefore(h *ssa.BasicBlock) bool {
+	found := false
+	for _, b := range h.Parent().Blocks {
+		if b == h || !b.Dominates(h) {
+			continue
+		}
+		for _, in := range b.Instrs {
+			switch x := in.(type) {
+			case *ssa.IndexAddr:
+				if k, ok := constInt(x.Index); ok && k == 0 {
+					found = true
+				}
+			case *ssa.Index:
+				if k, ok := constInt(x.Index); ok && k == 0 {
+					found = true
+				}
+			case *ssa.Slice:
+				if x.Low != nil {
+					if k, ok := constInt(x.Low); ok && k == 1 {
+						found = true
+					}
+				}
+			case *ssa.Call:
+				if cal := staticCallee(x); cal != nil {
+					switch cal.Name() {
+					case "ExteriorRing", "StartPoint":
+						found = true
+					case "Get", "GetXY", "PointN", "LineStringN", "PolygonN", "GeometryN":
+						if n := len(x.Call.Args); n >= 2 {
+							if k, ok := constInt(x.Call.Args[n-1]); ok && k == 0 {
+								found = true
+							}
+						}
+					}
+				}
+			}
+		}
+	}
+	return found
+}
+
+// ---- deep equivalence of a wrapper with its delegate ----
+
+// renderK4: canonical rendering of a value, snapshots and slices expanded
+func renderK4(it *k4interp, v k4val, d int) string {
+	if d > 4 {
+		return "…"
+	}
+	sub := func(prefix string) string {
+		var keys []string
+		for k := range it.mem {
+			if strings.HasPrefix(k, prefix+".") || strings.HasPrefix(k, prefix+"[") {
+				keys = append(keys, k)
+			}
+		}
+		sort.Strings(keys)
+		var parts []string
+		for _, k := range keys {
+			parts = append(parts, k[len(prefix):]+"="+renderK4(it, it.mem[k], d+1))
+		}
+		return strings.Join(parts, ",")
+	}
+	switch v.kind {
+	case 3:
+		if isSnapshotKey(v.s+".") || (strings.HasPrefix(v.s, "L") && strings.Contains(v.s, ":")) {
+			base := ""
+			if b, ok := it.mem[v.s]; ok {
+				base = "base:" + renderK4(it, b, d+1) + ";"
+			}
+			return "{" + base + sub(v.s) + "}"
+		}
+		return v.s
+	case 8:
+		var el []string
+		for i := 0; i < v.ln; i++ {
+			k := fmt.Sprintf("%s[%d]", v.s, v.off+i)
+			if x, ok := it.mem[k]; ok {
+				el = append(el, renderK4(it, x, d+1))
+			} else if s := sub(k); s != "" {
+				el = append(el, "{"+s+"}")
+			} else {
+				el = append(el, k)
+			}
+		}
+		return "[" + strings.Join(el, " ") + "]"
+	case 5:
+		var p []string
+		for _, t := range v.tup {
+			p = append(p, renderK4(it, t, d+1))
+		}
+		return "(" + strings.Join(p, ", ") + ")"
+	}
+	return v.String()
+}
+
+// delegateOf: the function the wrapper method is documented to be, and how its arguments are built from the wrapper's
+func delegateOf(c *Ctx, typeName, method string) (target *ssa.Function, build func(it *k4interp, args []k4val) ([]k4val, error), post func(res []k4val) []k4val) {
+	recvFunc := func(name string) *ssa.Function {
+		if f := c.P.Func("geom.(" + typeName + ")." + name); f != nil {
+			return f
+		}
+		return c.P.Func("geom.(*" + typeName + ")." + name)
+	}
+	nilSlice := k4val{kind: 3, s: "nil"}
+	switch method {
+	case "Force2D":
+		return recvFunc("ForceCoordinatesType"), func(it *k4interp, a []k4val) ([]k4val, error) { return []k4val{a[0], {kind: 2, f: 0}}, nil }, nil
+	case "AsBinary":
+		return recvFunc("AppendWKB"), func(it *k4interp, a []k4val) ([]k4val, error) { return []k4val{a[0], nilSlice}, nil }, nil
+	case "AsText":
+		return recvFunc("AppendWKT"), func(it *k4interp, a []k4val) ([]k4val, error) { return []k4val{a[0], nilSlice}, nil }, nil
+	case "Value":
+		return recvFunc("AppendWKB"), func(it *k4interp, a []k4val) ([]k4val, error) { return []k4val{a[0], nilSlice}, nil },
+			func(res []k4val) []k4val { return append(res, k4val{kind: 3, s: "nil"}) }
+	case "Scan":
+		return c.P.Func("geom.scanAsType"), func(it *k4interp, a []k4val) ([]k4val, error) { return []k4val{a[1], a[0]}, nil }, nil
+	case "UnmarshalJSON":
+		return c.P.Func("geom.unmarshalGeoJSONAsType"), func(it *k4interp, a []k4val) ([]k4val, error) { return []k4val{a[1], a[0]}, nil }, nil
+	}
+	return nil, nil, nil
+}
+
+// wrapperDeepEquiv: interpret the wrapper with its delegate's body unfolded, and the delegate itself on the
+// corresponding arguments, for every coordinates type and every answer to the Boolean questions either asks
+// (answers are tied to the question, not to the order of asking); equal canonical results on all of them.
+func wrapperDeepEquiv(c *Ctx, f *ssa.Function, typeName, method string) (bool, string) {
+	target, build, post := delegateOf(c, typeName, method)
+	if target == nil || len(target.Blocks) == 0 {
+		return false, ""
+	}
+	var keys []string
+	models := 0
+	for ct := 0; ct < 4; ct++ {
+		for mask := 0; mask < 1<<uint(len(keys)) || mask == 0; mask++ {
+			if len(keys) > 4 {
+				return false, ""
+			}
+			run := func(fn *ssa.Function, mkArgs func(it *k4interp) ([]k4val, error), inlineTarget bool) (string, error) {
+				m := &Model{Num: map[string]float64{}, Bool: map[string]bool{}, Missing: map[string]bool{}}
+				it := &k4interp{p: c.P, m: m, mem: map[string]k4val{}}
+				leaf := func(g *ssa.Function) bool {
+					switch FuncName(g) {
+					case "geom.(Sequence).Length", "geom.(Sequence).Get", "geom.(Sequence).GetXY", "geom.(Sequence).CoordinatesType",
+						"geom.(CoordinatesType).Dimension", "geom.(CoordinatesType).Is3D", "geom.(CoordinatesType).IsMeasured":
+						return true
+					}
+					return false
+				}
+				if inlineTarget {
+					it.inline = func(g *ssa.Function) bool { return g == target || leaf(g) }
+				} else {
+					it.inline = leaf
+				}
+				// a concrete two-point sequence for Sequence receivers
+				dim := 2 + (ct & 1) + (ct>>1)&1
+				it.mem["$0.floats"] = k4val{kind: 8, s: "F", ln: 2 * dim, cp: 2 * dim}
+				for i := 0; i < 2*dim; i++ {
+					it.mem[fmt.Sprintf("F[%d]", i)] = k4val{kind: 2, f: float64(10 + i)}
+				}
+				it.answer = func(key string, isBool bool) (k4val, bool) {
+					if !isBool {
+						if strings.HasSuffix(key, ".ctype") || strings.HasSuffix(key, ".Type") || strings.Contains(key, ").CoordinatesType(") {
+							return k4val{kind: 2, f: float64(ct)}, true
+						}
+						return k4val{}, false
+					}
+					for i, k := range keys {
+						if k == key {
+							return k4val{kind: 1, b: mask&(1<<uint(i)) != 0}, true
+						}
+					}
+					keys = append(keys, key)
+					return k4val{kind: 1, b: mask&(1<<uint(len(keys)-1)) != 0}, true
+				}
+				old := k4WrapperInline
+				k4WrapperInline = func(g *ssa.Function) bool {
+					if g == f || g.Signature.Recv() == nil {
+						return false
+					}
+					return namedName(g.Signature.Recv().Type()) == typeName && wrapperInline[g.Name()]
+				}
+				defer func() { k4WrapperInline = old }()
+				args, err := mkArgs(it)
+				if err != nil {
+					return "", err
+				}
+				res, err := it.call(fn, args, nil)
+				if err != nil {
+					return "", fmt.Errorf("%v %s", err, missingList(m))
+				}
+				if !inlineTarget && post != nil {
+					res = post(res)
+				}
+				var rs []string
+				for _, r := range res {
+					rs = append(rs, renderK4(it, r, 0))
+				}
+				return strings.Join(rs, " , "), nil
+			}
+			wargs := func(it *k4interp) ([]k4val, error) {
+				var a []k4val
+				for i := range f.Params {
+					a = append(a, k4val{kind: 3, s: fmt.Sprintf("$%d", i)})
+				}
+				return a, nil
+			}
+			got, err1 := run(f, wargs, true)
+			want, err2 := run(target, func(it *k4interp) ([]k4val, error) {
+				a, _ := wargs(it)
+				return build(it, a)
+			}, false)
+			if err1 != nil || err2 != nil {
+				return false, ""
+			}
+			models++
+			if got != want {
+				return false, ""
+			}
+		}
+	}
+	return true, fmt.Sprintf("%d models", models)
 }
